@@ -169,6 +169,10 @@ class Sim(object):
         items = self.items
         while items and items[0].cancelled:
             heapq.heappop(items)
+        if len(items) > 64 and sum(1 for it in items if it.cancelled) * 2 > len(items):
+            # drop consumed / cancelled entries (they are never looked at again) to keep the scan short
+            items[:] = [it for it in items if not it.cancelled]
+            heapq.heapify(items)
         for it in items:
             if it.cancelled:
                 continue
